@@ -53,3 +53,38 @@ def build_seam_driver(name, sources, c_sources, cxx_sources=(), cxx=False, libs=
                 os.unlink(o)
             except OSError:
                 pass
+
+
+def run_parallel(exe, behaviours, nproc=6, timeout=900, env=None):
+    """Run a driver on the behaviours split into nproc contiguous chunks, concurrently.
+    Behaviour ids stay global.  Returns the records of all chunks in order."""
+    from concurrent.futures import ThreadPoolExecutor
+    n = len(behaviours)
+    if n == 0:
+        return []
+    nproc = max(1, min(nproc, n))
+    step = (n + nproc - 1) // nproc
+    e = {"ASAN_OPTIONS": vlib.ASAN_ENV + ":symbolize=0"}
+    if env:
+        e.update(env)
+
+    def script(lo, hi):
+        lines = []
+        for i in range(lo, hi):
+            lines.append("B %d" % i)
+            for st in behaviours[i]:
+                toks = [st["a"]]
+                for k, v in (st.get("arg") or {}).items():
+                    toks.append("%s=%s" % (k, vlib.fmt_val(v)))
+                lines.append(" ".join(toks))
+        return "\n".join(lines) + "\n"
+
+    def work(lo):
+        return vlib.run_driver(exe, script(lo, min(lo + step, n)), timeout=timeout, env=e)[0]
+
+    with ThreadPoolExecutor(max_workers=nproc) as ex:
+        parts = list(ex.map(work, range(0, n, step)))
+    out = []
+    for p in parts:
+        out += p
+    return out
